@@ -252,6 +252,14 @@ func (ds *dataSet) TruncateGap() (*dataSetRdb, []*dataSetAof) {
 		}
 	}
 
+	// the snapshot and the log must join as well : the log that continues a snapshot starts at the
+	// snapshot's offset. a directory left behind in the middle of a reset can still hold the snapshot
+	// while its first log segments are gone, the range would span bytes that are not there
+	if ds.rdb != nil && len(ds.aofSegs) > 0 && ds.aofSegs[0].Left() != ds.rdb.left {
+		rdb = ds.rdb
+		ds.rdb = nil
+	}
+
 	ds.aofMap = make(map[int64]*dataSetAof)
 	for _, a := range ds.aofSegs {
 		ds.aofMap[a.left] = a
